@@ -207,3 +207,32 @@ Definition run_c20_cmarg (s : sx) : sx :=
       end
   | _ => bad_request
   end.
+
+(* usage sequences on one GaussianDistribution object.
+   step = [0] precision_matrix | [1] to_canonical_factor | [2] copy | [3; drop] marginalize | [4; values] reduce
+        | [5; product?; gauss] product/divide, continue with the result | [6; product?; gauss] ... continue with self
+   [gauss; steps] -> for every step [] (exception) or [[distribution; [] | [cached precision]]] *)
+Definition sx_step (s : sx) : option (@gstep QcF) :=
+  match s with
+  | SL [SZ 0%Z] => Some (SPrec (K:=QcF))
+  | SL [SZ 1%Z] => Some (SCanon (K:=QcF))
+  | SL [SZ 2%Z] => Some (SCopy (K:=QcF))
+  | SL [SZ 3%Z; d] => option_map (fun l => SMarg (K:=QcF) l) (sx_nats d)
+  | SL [SZ 4%Z; v] => option_map (fun l => SReduce (K:=QcF) l) (sx_list (sx_pair sx_nat sx_Qc) v)
+  | SL [SZ 5%Z; p; g] => match sx_bool p, sx_gauss g with
+                         | Some p', Some g' => Some (SOperate (K:=QcF) p' g') | _, _ => None end
+  | SL [SZ 6%Z; p; g] => match sx_bool p, sx_gauss g with
+                         | Some p', Some g' => Some (SOperateSelf (K:=QcF) p' g') | _, _ => None end
+  | _ => None
+  end.
+Definition of_obj (o : @gobj QcF) : sx := SL [of_gauss (o_d o); of_option of_mat (o_cache o)].
+Definition run_c20_seq (s : sx) : sx :=
+  match s with
+  | SL [sg; ss] =>
+      match sx_gauss sg, sx_list sx_step ss with
+      | Some D, Some steps =>
+          sx_ok (of_list (of_option of_obj) (o_trace QcF (mkObj (K:=QcF) D None) steps))
+      | _, _ => bad_request
+      end
+  | _ => bad_request
+  end.
